@@ -39,7 +39,7 @@ PROFILES = {
     "C10": dict(gen=dict(private_rate=0.3), options=[dict(), dict(convert=True)]),
     "C11": dict(gen=dict(), options=[dict()]),
     "C12": dict(gen=dict(private_rate=0.3, ties=0.4), options=[dict()]),
-    "C13": dict(gen=dict(docs=1.0, reexports=False), options=[dict()]),
+    "C13": dict(gen=dict(docs=0.85, reexports=False), options=[dict()]),
     "C20": dict(gen=dict(docs=0.0), options=[dict()]),
     "C14": dict(gen=dict(docs=1.0, doc_types="mixed", infer_returns=0.1), styles=["numpydoc", "google", "rest"],
                 options=[dict(tsp=p, tsw=w) for p in ("CODE", "DOCSTRING") for w in ("WARN", "IGNORE")]),
